@@ -1868,9 +1868,13 @@ func scenarios(tier string) []engine.Scenario {
 			scs = append(scs, ringScenario(N, []uint64{big[0], tiny[0], big[2], big[1]}, "mixed"))
 		}
 	}
-	if tier == "thorough" {
-		// large-N NTT on dense extremes
-		for _, N := range []int{256, 512, 1024, 2048, 4096} {
+	{
+		// large-N NTT on dense extremes (code paths and index ranges that depend on N); the largest only in thorough
+		largeN := []int{256, 1024, 4096}
+		if tier == "thorough" {
+			largeN = []int{256, 512, 1024, 2048, 4096}
+		}
+		for _, N := range largeN {
 			for _, q := range []uint64{ref.SmallestPrimes(uint64(4*N), 1)[0], ref.PrimesNear(1<<61, uint64(4*N), 1, true)[0]} {
 				scs = append(scs, nttScenario(N, q, "largeN", ring.Standard, "quick"))
 				scs = append(scs, nttScenario(N, q, "largeN", ring.ConjugateInvariant, "quick"))
